@@ -59,7 +59,9 @@ Norm(e)   == [e EXCEPT !.meta = PairSet(@), !.orig = Range(@), !.ua = Range(@)]
 NormPs(S) == {Norm(e) : e \in S}
 SamePs(a, b) == NormPs(a) = NormPs(b)
 
-\* environment: [follower, dmin, dmax, strat, ms, paths, blocks, fail]
+\* environment: [follower, dmin, dmax, strat, ms, paths, blocks, fail, logfail]
+\* env.logfail: the <<kind, cid>> consensus operations (LogPin "pin" / LogUnpin "unpin") that fail at the moment
+LF(env) == {<<env.logfail[i][1], env.logfail[i][2]>> : i \in DOMAIN env.logfail}
 Resolve(env, path) == LET I == {i \in DOMAIN env.paths : env.paths[i][1] = path}
                       IN IF I = {} THEN NoCid ELSE env.paths[CHOOSE i \in I : TRUE][2]
 \* env.blocks is the truth about the cluster-DAG (cdag -> shard links); env.fail lists the CIDs whose
@@ -116,7 +118,9 @@ CodeEquals(q, ex) ==
 Refuse           == [kind |-> "refuse"]
 Store(r)         == [kind |-> "store", rec |-> r]
 Alloc(r, in)     == [kind |-> "alloc", rec |-> r, in |-> in]
-Remove(c, cs, l) == [kind |-> "remove", cid |-> c, cids |-> cs, log |-> l]
+\* log: the LogUnpin calls in one possible order; free: the part of it whose order the code leaves to chance
+Remove(c, cs, l) == [kind |-> "remove", cid |-> c, cids |-> cs, log |-> l, free |-> 0]
+RemoveSharded(c, cs, l, n) == [kind |-> "remove", cid |-> c, cids |-> cs, log |-> l, free |-> n]
 
 \* Cluster.PinUpdate(from, to, opts)
 UpdateDecide(env, ps, from, to, o) ==
@@ -168,8 +172,10 @@ UnpinDecide(env, ps, c) ==
              \* block is read (its links are the shards); shard blocks are never fetched.
              ELSE IF ~HasBlock(env, e.ref) THEN Refuse
              ELSE LET ls == Links(env, e.ref) IN
-                  \* shards (reverse link order), clusterDAG, the meta pin (by unpinClusterDag) and the meta pin again (by Unpin)
-                  Remove(c, Range(ls) \cup {e.ref, c}, Reverse(ls) \o <<e.ref, c, c>>)
+                  \* shards, clusterDAG, the meta pin (by unpinClusterDag) and the meta pin again (by Unpin). The shards come
+                  \* in the reverse of the order in which the CBOR node lists its links, which is Go map iteration order:
+                  \* any order (the first Len(ls) entries of the log are free)
+                  RemoveSharded(c, Range(ls) \cup {e.ref, c}, Reverse(ls) \o <<e.ref, c, c>>, Len(ls))
         [] OTHER -> Refuse
 
 Decide(env, ps, call) ==
@@ -213,7 +219,39 @@ StepOKOf(d, ps, obs) ==
                               /\ BagOf([i \in DOMAIN obs.log |-> obs.log[i][2]]) = BagOf(d.log)
                               /\ \A i \in DOMAIN obs.log : obs.log[i][1] = "unpin"
 
-StepOK(env, ps, call, obs) == StepOKOf(Decide(env, ps, call), ps, obs)
+(* Consensus faults.  What the code does when LogPin / LogUnpin returns an error:                          *)
+(*  - pin() / PinUpdate() return the LogPin error; nothing was stored.                                    *)
+(*  - Unpin of a data pin returns the LogUnpin error; nothing was removed.                                *)
+(*  - Unpin of sharded content: unpinClusterDag issues LogUnpin for the shards (reverse link order), the   *)
+(*    cluster-DAG and the meta pin and RETURNS AT THE FIRST FAILURE; Unpin then returns that error without *)
+(*    its own LogUnpin of the meta pin.  What was unpinned before the failure stays unpinned, the failing  *)
+(*    entry and everything after it (in particular the meta pin, which comes last) stay.                   *)
+FirstFail(env, l) == LET I == {i \in DOMAIN l : <<"unpin", l[i]>> \in LF(env)} IN
+                     IF I = {} THEN 0 ELSE CHOOSE i \in I : \A j \in I : i <= j
+Faulty(env, d) ==
+    CASE d.kind \in {"store", "alloc"} -> <<"pin", d.rec.cid>> \in LF(env)
+      [] d.kind = "remove" -> FirstFail(env, d.log) # 0
+      [] OTHER -> FALSE
+AllocPossible(d) == \E out \in Outs(d.in) : out.ok
+\* the orders in which the LogUnpin calls of a remove decision may be issued
+Orders(d) == {p \o SubSeq(d.log, d.free + 1, Len(d.log)) : p \in Perms({d.log[i] : i \in 1..d.free})}
+\* the possible [ps2, log, failed] of a faulty decision (always an error return)
+FaultResults(env, d, ps) ==
+    CASE d.kind = "store" -> {[ps2 |-> ps, log |-> <<>>, failed |-> << <<"pin", d.rec.cid>> >>]}
+      [] d.kind = "alloc" -> {[ps2 |-> ps, log |-> <<>>,
+                               failed |-> IF AllocPossible(d) THEN << <<"pin", d.rec.cid>> >> ELSE <<>>]}
+      [] d.kind = "remove" ->
+            {LET k == FirstFail(env, l) IN
+             [ps2 |-> Without(ps, {l[i] : i \in 1..(k - 1)}),
+              log |-> [i \in 1..(k - 1) |-> <<"unpin", l[i]>>],
+              failed |-> << <<"unpin", l[k]>> >>] : l \in Orders(d)}
+
+StepOK(env, ps, call, obs) ==
+    LET d == Decide(env, ps, call) IN
+    IF Faulty(env, d)
+    THEN \E r \in FaultResults(env, d, ps) :
+            ~obs.ok /\ SamePs(obs.ps2, r.ps2) /\ obs.log = r.log /\ obs.failed = r.failed
+    ELSE StepOKOf(d, ps, obs) /\ obs.failed = <<>>
 
 \* constructive form for the exhaustive check and for generating histories
 OutcomesOf(d, ps) ==
@@ -228,7 +266,11 @@ OutcomesOf(d, ps) ==
                                ELSE refused : out \in Outs(d.in)}
       [] d.kind = "remove" -> {[ok |-> TRUE, ps2 |-> Without(ps, d.cids), ret |-> <<Ent(ps, d.cid)>>,
                                 log |-> [i \in DOMAIN d.log |-> <<"unpin", d.log[i]>>]]}
-Outcomes(env, ps, call) == OutcomesOf(Decide(env, ps, call), ps)
+Outcomes(env, ps, call) ==
+    LET d == Decide(env, ps, call) IN
+    IF Faulty(env, d)
+    THEN {[ok |-> FALSE, ps2 |-> r.ps2, ret |-> <<>>, log |-> r.log, failed |-> r.failed] : r \in FaultResults(env, d, ps)}
+    ELSE {[failed |-> <<>>] @@ o : o \in OutcomesOf(d, ps)}
 
 (***************************************************************************)
 (* PROPERTY (C04)                                                          *)
@@ -295,8 +337,19 @@ UpdateEffect(env, ps, from, to, o, obs) ==
             /\ n.exp \in {s.exp} \cup ({o.exp} \cap Future)
             /\ n.upd \in {from, s.upd, NoCid}
 
+\* the entries an Unpin of c is about: for sharded content the meta pin, its cluster-DAG and every shard
+UnpinGroup(env, ps, c) ==
+    IF Has(ps, c) /\ Ent(ps, c).type = "meta" THEN {c, Ent(ps, c).ref} \cup Range(Links(env, Ent(ps, c).ref)) ELSE {c}
 UnpinEffect(env, ps, c, obs) ==
-    IF ~obs.ok THEN SamePs(obs.ps2, ps)
+    IF ~obs.ok THEN
+        IF env.logfail = <<>> THEN SamePs(obs.ps2, ps)              \* refused: pinset unchanged
+        ELSE \* the consensus component fails some operations: an unpin of sharded content is several operations and
+             \* may stop half way, but an error return never takes the root/meta entry away while entries of its
+             \* cluster-DAG / shards remain (the unpin can be retried), never touches other CIDs, adds nothing
+             LET G == UnpinGroup(env, ps, c) IN
+             /\ NormPs(obs.ps2) \subseteq NormPs(ps)
+             /\ OthersSame(ps, obs.ps2, G)
+             /\ (~Has(obs.ps2, c) => \A g \in G : ~Has(obs.ps2, g))
     ELSE /\ ~env.follower
          /\ Has(ps, c)                                         \* unpin of a CID that is not pinned
          /\ LET e == Ent(ps, c) IN
